@@ -631,6 +631,9 @@ class World:
         fl = is_float(npdt if npdt is not None else a.dtype)
         expect_fail = (not fl) and c is False and self.tracking
         kw = {} if npdt is None else {"dtype": npdt}
+        ndmin = int(ev.get("ndmin", 0) or 0)
+        if ndmin and how != "astensor":
+            kw["ndmin"] = ndmin
         try:
             if how == "tensor_copy":
                 t = mg.tensor(a, constant=c, **kw)
@@ -653,9 +656,14 @@ class World:
         shares = how in ("tensor_nocopy", "astensor", "Tensor_nocopy") and (npdt is None or npdt == a.dtype)
         self.last_conv = {"src_a": src, "how": how, "expect_shares": shares, "shares": bool(t.data.size and np.shares_memory(t.data, a)), "is_same_array": t.data is a, "out": h}
         self.T[h] = t
-        self.S[h] = self.SA[src] if shares else np.array(self.SA[src], dtype=t.dtype, copy=True)
+        if shares:
+            sh = self.SA[src]
+            extra = t.data.ndim - sh.ndim
+            self.S[h] = sh[(None,) * extra] if extra > 0 else sh  # ndmin prepends axes: a view of the same memory
+        else:
+            self.S[h] = np.array(self.SA[src], dtype=t.dtype, copy=True, ndmin=t.data.ndim)
         const = c if c is not None else (not fl)
-        nid = self.tape.leaf(np.asarray(a, dtype=np.float64), const)
+        nid = self.tape.leaf(np.asarray(t.data, dtype=np.float64), const)
         i = self._new_tinfo(h, t, const, nid, foreign=True, orig_w=(self.a_orig[src] if shares else True))
         i.entered = self.a_entered[src] if shares else False
         i.made_by = self.a_origin.get(src, "caller") if shares else "leaf"
